@@ -1,29 +1,37 @@
 (* C12 — exponentiation is exact for every exponent type.
    Statements only; proofs live in proofs/PowProofs.v (generic in the source-extracted
    parameters under pow_ok, instantiated at Extracted.pgr_pow by inst/InstPgr.v).
-   The model is parameterised by the big multiplication it calls; every theorem is stated for
-   EVERY multiplication that is exact on canonical operands ([bmul_exact] = the statement of
-   Mul.umul_spec, property C02). *)
-From BigNum Require Import Base BaseLemmas PgrLoop PgrLoopProofs Pow SpecPow PowProofs Extracted InstPgr.
+   The model is parameterised by the big multiplication it calls; every theorem here is about the
+   REAL one, [pgr_bmul] = Mul.umul Extracted.mul (proofs/PgrInst.v; exact on canonical operands
+   by MulProofs5.umul_spec, property C02: [pgr_bmul_exact]).  No hypothesis other than
+   canonicity and the exponent range is left. *)
+From BigNum Require Import Base BaseLemmas PgrLoop PgrLoopProofs Pow SpecPow PowProofs Mul PgrInst
+  Extracted InstPgr.
+Local Notation Hm := pgr_bmul_exact.
+
+(* what the theorems below are about: the real multiplication model at the extracted parameters *)
+Theorem C12_real_mul : pgr_bmul = Mul.umul Extracted.mul.
+Proof. reflexivity. Qed.
+Print Assumptions C12_real_mul.
 Open Scope Z_scope.
 
 (* `Pow<T> for BigUint`, T in u8, u16, u32, u64, usize, u128 (exponent value e < 2^128 covers
    every primitive type), by value; includes 0^0 = 1 since Z's 0^0 = 1. *)
-Theorem C12_upow : forall bmul, bmul_exact bmul -> forall x e, canon x -> 0 <= e < 2 ^ 128 ->
-  upow_prim bmul pgr_pow x e = Ret (enc (val x ^ e)).
-Proof. intros bmul Hm x e Cx He. apply upow_prim_spec; auto using pow_params_ok. Qed.
+Theorem C12_upow : forall x e, canon x -> 0 <= e < 2 ^ 128 ->
+  upow_prim pgr_bmul pgr_pow x e = Ret (enc (val x ^ e)).
+Proof. intros x e Cx He. apply upow_prim_spec; auto using pow_params_ok, Hm. Qed.
 Print Assumptions C12_upow.
 
 (* `Pow<T> for &BigUint`, `Pow<&T> for &BigUint`, `BigUint::pow(&self, u32)` *)
-Theorem C12_upow_ref : forall bmul, bmul_exact bmul -> forall x e, canon x -> 0 <= e < 2 ^ 128 ->
-  upow_prim_ref bmul pgr_pow x e = Ret (enc (val x ^ e)).
-Proof. intros bmul Hm x e Cx He. apply upow_prim_ref_spec; auto using pow_params_ok. Qed.
+Theorem C12_upow_ref : forall x e, canon x -> 0 <= e < 2 ^ 128 ->
+  upow_prim_ref pgr_bmul pgr_pow x e = Ret (enc (val x ^ e)).
+Proof. intros x e Cx He. apply upow_prim_ref_spec; auto using pow_params_ok, Hm. Qed.
 Print Assumptions C12_upow_ref.
 
-Theorem C12_zero_zero : forall bmul, bmul_exact bmul ->
-  upow_prim bmul pgr_pow [] 0 = Ret [1] /\ upow_prim_ref bmul pgr_pow [] 0 = Ret [1].
+Theorem C12_zero_zero :
+  upow_prim pgr_bmul pgr_pow [] 0 = Ret [1] /\ upow_prim_ref pgr_bmul pgr_pow [] 0 = Ret [1].
 Proof.
-  intros bmul Hm. split.
+  split.
   - rewrite C12_upow by (auto using canon_nil; lia). rewrite Z.pow_0_r. try rewrite enc_1; reflexivity.
   - rewrite C12_upow_ref by (auto using canon_nil; lia). rewrite Z.pow_0_r. try rewrite enc_1; reflexivity.
 Qed.
@@ -35,13 +43,13 @@ Proof. intros. unfold spec_upow. now rewrite zpow_safe_eq. Qed.
 Print Assumptions C12_spec_is_pow.
 
 (* BigInt: value (ival x)^e, hence negative exactly when x < 0 and e is odd *)
-Theorem C12_ipow : forall bmul, bmul_exact bmul -> forall x e, icanon x -> 0 <= e < 2 ^ 128 ->
-  ipow_prim bmul pgr_pow x e = Ret (ienc (ival x ^ e)) /\
-  ipow_prim_ref bmul pgr_pow x e = Ret (ienc (ival x ^ e)).
+Theorem C12_ipow : forall x e, icanon x -> 0 <= e < 2 ^ 128 ->
+  ipow_prim pgr_bmul pgr_pow x e = Ret (ienc (ival x ^ e)) /\
+  ipow_prim_ref pgr_bmul pgr_pow x e = Ret (ienc (ival x ^ e)).
 Proof.
-  intros bmul Hm x e Cx He. split.
-  - apply ipow_prim_spec; auto using pow_params_ok.
-  - apply ipow_prim_ref_spec; auto using pow_params_ok.
+  intros x e Cx He. split.
+  - apply ipow_prim_spec; auto using pow_params_ok, Hm.
+  - apply ipow_prim_ref_spec; auto using pow_params_ok, Hm.
 Qed.
 Print Assumptions C12_ipow.
 
@@ -64,49 +72,49 @@ Print Assumptions C12_ipow_sign.
 
 (* BigUint exponent: x^e, or the "memory overflow" panic exactly when the base is >= 2 and the
    exponent does not fit in u128 (base 0 / 1 and exponent 0 never panic). *)
-Theorem C12_big_exp : forall bmul, bmul_exact bmul -> forall x e, canon x -> canon e ->
-  upow_big bmul pgr_pow x e = omap enc (spec_upow_big (val x) (val e)) /\
-  upow_big_ref bmul pgr_pow x e = omap enc (spec_upow_big (val x) (val e)).
+Theorem C12_big_exp : forall x e, canon x -> canon e ->
+  upow_big pgr_bmul pgr_pow x e = omap enc (spec_upow_big (val x) (val e)) /\
+  upow_big_ref pgr_bmul pgr_pow x e = omap enc (spec_upow_big (val x) (val e)).
 Proof.
-  intros bmul Hm x e Cx Ce.
+  intros x e Cx Ce.
   pose proof (val_nonneg x (proj1 Cx)). pose proof (val_nonneg e (proj1 Ce)).
   unfold spec_upow_big. rewrite Z.abs_eq, zpow_safe_eq by lia. split.
-  - rewrite upow_big_spec by auto using pow_params_ok.
+  - rewrite upow_big_spec by auto using pow_params_ok, Hm.
     destruct ((2 <=? val x) && (BB <=? val e)); reflexivity.
-  - rewrite upow_big_ref_spec by auto using pow_params_ok.
+  - rewrite upow_big_ref_spec by auto using pow_params_ok, Hm.
     destruct ((2 <=? val x) && (BB <=? val e)); reflexivity.
 Qed.
 Print Assumptions C12_big_exp.
 
-Theorem C12_big_exp_panic_iff : forall bmul, bmul_exact bmul -> forall x e, canon x -> canon e ->
-  (upow_big bmul pgr_pow x e = Panic MemOverflow <-> 2 <= val x /\ 2 ^ 128 <= val e) /\
-  (~ (2 <= val x /\ 2 ^ 128 <= val e) -> upow_big bmul pgr_pow x e = Ret (enc (val x ^ val e))).
+Theorem C12_big_exp_panic_iff : forall x e, canon x -> canon e ->
+  (upow_big pgr_bmul pgr_pow x e = Panic MemOverflow <-> 2 <= val x /\ 2 ^ 128 <= val e) /\
+  (~ (2 <= val x /\ 2 ^ 128 <= val e) -> upow_big pgr_bmul pgr_pow x e = Ret (enc (val x ^ val e))).
 Proof.
-  intros bmul Hm x e Cx Ce. rewrite upow_big_spec by auto using pow_params_ok.
+  intros x e Cx Ce. rewrite upow_big_spec by auto using pow_params_ok, Hm.
   assert (HB : BB = 2 ^ 128) by (rewrite BB_val, B_val; reflexivity). rewrite HB.
   destruct (Z.leb_spec 2 (val x)); destruct (Z.leb_spec (2 ^ 128) (val e)); cbn [andb];
     (split; [split; [intros; try discriminate; lia | intros; try reflexivity; lia] | intros; try reflexivity; lia]).
 Qed.
 Print Assumptions C12_big_exp_panic_iff.
 
-Theorem C12_ipow_big : forall bmul, bmul_exact bmul -> forall x e, icanon x -> canon e ->
-  ipow_big bmul pgr_pow x e = omap ienc (spec_ipow_big (ival x) (val e)) /\
-  ipow_big_ref bmul pgr_pow x e = omap ienc (spec_ipow_big (ival x) (val e)).
+Theorem C12_ipow_big : forall x e, icanon x -> canon e ->
+  ipow_big pgr_bmul pgr_pow x e = omap ienc (spec_ipow_big (ival x) (val e)) /\
+  ipow_big_ref pgr_bmul pgr_pow x e = omap ienc (spec_ipow_big (ival x) (val e)).
 Proof.
-  intros bmul Hm x e Cx Ce. pose proof (val_nonneg e (proj1 Ce)).
+  intros x e Cx Ce. pose proof (val_nonneg e (proj1 Ce)).
   unfold spec_ipow_big, spec_upow_big. rewrite zpow_safe_eq by lia. split.
-  - rewrite ipow_big_spec by auto using pow_params_ok.
+  - rewrite ipow_big_spec by auto using pow_params_ok, Hm.
     destruct ((2 <=? Z.abs (ival x)) && (BB <=? val e)); reflexivity.
-  - rewrite ipow_big_ref_spec by auto using pow_params_ok.
+  - rewrite ipow_big_ref_spec by auto using pow_params_ok, Hm.
     destruct ((2 <=? Z.abs (ival x)) && (BB <=? val e)); reflexivity.
 Qed.
 Print Assumptions C12_ipow_big.
 
-(* Non-vacuity: the hypotheses are satisfiable (the stand-in multiplication is exact) and the loop
-   runs through strip / exit / accumulate phases on a multi-digit base: (2^64+1)^6, (-3)^5. *)
+(* Non-vacuity: the hypotheses are satisfiable and the loop runs (with the real multiplication)
+   through strip / exit / accumulate phases on a multi-digit base: (2^64+1)^6, (-3)^5. *)
 Example C12_nonvacuous :
-  bmul_exact spec_bmul /\ canonb [1; 1] = true /\
-  upow_prim spec_bmul pgr_pow [1; 1] 6 = Ret [1; 6; 15; 20; 15; 6; 1] /\
-  ipow_prim spec_bmul pgr_pow (mkint Minus [3]) 5 = Ret (mkint Minus [243]) /\
-  upow_big spec_bmul pgr_pow [2] [0; 0; 1] = Panic MemOverflow.
-Proof. split; [exact spec_bmul_exact|]. repeat split; vm_compute; reflexivity. Qed.
+  canonb [1; 1] = true /\
+  upow_prim pgr_bmul pgr_pow [1; 1] 6 = Ret [1; 6; 15; 20; 15; 6; 1] /\
+  ipow_prim pgr_bmul pgr_pow (mkint Minus [3]) 5 = Ret (mkint Minus [243]) /\
+  upow_big pgr_bmul pgr_pow [2] [0; 0; 1] = Panic MemOverflow.
+Proof. repeat split; vm_compute; reflexivity. Qed.
